@@ -1,4 +1,5 @@
 import FitModel.Writer
+import FitModel.WriterShort
 import FitModel.Integrity
 import FitModel.Generated.WireConsts
 import Driver.Util
@@ -29,6 +30,8 @@ structure Cfg where
   /-- where the destination is positioned when the encoder gets it (`pre.length` unless `pos=` says otherwise) -/
   pos : Nat
   faults : List (Nat × Nat)
+  /-- operations answered (n < len, nil) — entries `k<s>j` of `f=` -/
+  shorts : List (Nat × Nat) := []
   hasF : Bool
   cont : Bool
   files : List Drv.W.WFile
@@ -39,12 +42,16 @@ def parseKind : String → Option Kind
 def parseInt (s : String) : Option Int :=
   if s.startsWith "-" then (s.drop 1).toString.toNat?.map fun n => -(n : Int) else s.toNat?.map fun n => (n : Int)
 
-def parseFaults (s : String) : Option (List (Nat × Nat)) :=
+/-- entries `k.j` (fails after j bytes) and `k<s>j` (takes j bytes, no error): (is-short, k, j) -/
+def parseFaults (s : String) : Option (List (Bool × Nat × Nat)) :=
   if s == "-" || s.isEmpty then some []
   else (s.splitOn ",").mapM fun e =>
     match e.splitOn "." with
-    | [a, b] => do let a ← a.toNat?; let b ← b.toNat?; pure (a, b)
-    | _ => none
+    | [a, b] => do let a ← a.toNat?; let b ← b.toNat?; pure (false, a, b)
+    | _ =>
+      match e.splitOn "s" with
+      | [a, b] => do let a ← a.toNat?; let b ← b.toNat?; pure (true, a, b)
+      | _ => none
 
 def parse (args : List String) (needKind : Bool) : Option Cfg := do
   let (kv, rest) := Drv.W.splitKV args
@@ -62,14 +69,14 @@ def parse (args : List String) (needKind : Bool) : Option Cfg := do
   let hasF := match kv.lookup "f" with
     | some s => s != "-" && !s.isEmpty
     | none => false
-  if (fs.map (·.1)).eraseDups.length != fs.length then none
+  if (fs.map (·.2.1)).eraseDups.length != fs.length then none
   let pos ← match kv.lookup "pos" with
     | some p => p.toNat?
     | none => some pre.length
   if pos > pre.length then none
   pure { kind := kind, bs := bs, stream := kv.lookup "m" == some "s",
          o := Drv.W.mkOpts (Drv.W.kvGet kv "a") (Drv.W.kvGet kv "h") (Drv.W.kvGet kv "l"),
-         pvOpt := Drv.W.kvGet kv "pv", v := Drv.W.kvGet kv "v" == 1, pre := pre, pos := pos, faults := fs, hasF := hasF,
+         pvOpt := Drv.W.kvGet kv "pv", v := Drv.W.kvGet kv "v" == 1, pre := pre, pos := pos, faults := (fs.filter (!·.1)).map (·.2), shorts := (fs.filter (·.1)).map (·.2), hasF := hasF,
          cont := kv.lookup "c" == some "1", files := files }
 
 def faultsOf (fs : List (Nat × Nat)) : Faults := fun k => fs.lookup k
@@ -134,8 +141,58 @@ where
   /-- operations that failed because the schedule said so (a negative seek is not an injected fault; the encoder never issues one) -/
   failedInjected (d : Dest) : Nat := failedCount d
 
+/-- the schedule of a run with contract-breaking answers (FitModel/WriterShort.lean) -/
+def schedOf (fs shorts : List (Nat × Nat)) : Sched where
+  resp := fun k => match shorts.lookup k with
+    | some j => .short j
+    | none => match fs.lookup k with
+      | some j => .fail j
+      | none => .ok
+  extra := shorts.length
+
+/-- `runWith` over the extended model (used only when the op has `k<s>j` entries) -/
+def runWithR {σ : Type} (V : MsgValidator σ) (sc : StreamCfg) (c : Cfg) : Out := Id.run do
+  let R := schedOf c.faults c.shorts
+  let d0 : Dest := { content := c.pre, pos := c.pos }
+  let mut out : Out := { d := d0 }
+  let note := fun (out : Out) (before : Nat) (d : Dest) (r : Res) =>
+    let fired := failedCount d - before
+    { out with results := out.results.push r, hits := out.hits ++ (Array.replicate fired out.results.size), d := d }
+  if c.stream then
+    if c.kind == .plain then return { out with refused := true }
+    let h := streamHdr c.pvOpt
+    let mut s := Stream.new c.o c.kind c.bs d0
+    let mut vs := V.init
+    let mut stop := false
+    for f in c.files do
+      if stop then break
+      for m in f.msgs do
+        if stop then break
+        let before := failedCount s.e.w.d
+        let r := s.writeMessageVR V R c.o h vs m
+        s := r.1; vs := r.2.1
+        out := note out before s.e.w.d r.2.2
+        if r.2.2 != .ok && !c.cont then stop := true
+      if stop then break
+      let before := failedCount s.e.w.d
+      let r := s.sequenceCompletedVR V R sc c.o h vs
+      s := r.1; vs := r.2.1
+      out := note out before s.e.w.d r.2.2
+      if r.2.2 != .ok && !c.cont then stop := true
+    return out
+  else
+    let mut e := Enc.new c.o c.kind c.bs d0
+    for f in c.files do
+      let before := failedCount e.w.d
+      let r := encodeVR V R c.o e (fitIn c.pvOpt f)
+      e := r.1
+      out := note out before e.w.d r.2
+      if r.2 != .ok && !c.cont then break
+    return out
+
 def run (c : Cfg) (fs : List (Nat × Nat)) : Out :=
-  if c.v then runWith markValidator pinnedStreamCfg c fs else runWith passThrough pinnedStreamCfg c fs
+  if !c.shorts.isEmpty then (if c.v then runWithR markValidator pinnedStreamCfg c else runWithR passThrough pinnedStreamCfg c)
+  else if c.v then runWith markValidator pinnedStreamCfg c fs else runWith passThrough pinnedStreamCfg c fs
 
 def showOp : DOp → String
   | .write p t ok => s!"w{p.length}:{t}" ++ (if ok then "" else "!")
@@ -286,7 +343,7 @@ def c11Run (c : Cfg) (results hits : List String) (ci : String) (out : Option By
   else if hits.any (fun h => match h.toNat? with
       | some i => results[i]? != some "err"
       | none => true) then some "fail:fault-swallowed"
-  else if ci.startsWith "ok" && !c.cont && zeroHeaders c && (specChain c c.stream).isSome && !(c.kind == .at && !c.pre.isEmpty) && c.pos == c.pre.length then
+  else if ci.startsWith "ok" && !c.cont && zeroHeaders c && (specChain c c.stream).isSome && !(c.kind == .at && !c.pre.isEmpty) && c.pos == c.pre.length && c.shorts.isEmpty then
     match out with
     | none => some "fail:answer"
     | some bs => if (boundaries c).contains bs then none else some "fail:incomplete-output-accepted"
